@@ -60,8 +60,8 @@ def run(rep, tier, seed, timeout):
     try:
         lit = des.ld.module_literal(MOD, 'ROUND_KEY_MISSING_BITS_INDEXES'); spec = DC.missing_spec()
         ok = all(sorted(lit[r]) == spec[r] for r in range(16))
-        rep.obligation('table[des.ROUND_KEY_MISSING_BITS_INDEXES]', MOD + '::ROUND_KEY_MISSING_BITS_INDEXES', 'table', dict(result='unsat' if ok else 'unknown', backend='table-eval', secs=0, note='informational table'))
-        if not ok: rep.undecided.pop()
+        if ok: rep.obligation('table[des.ROUND_KEY_MISSING_BITS_INDEXES]', MOD + '::ROUND_KEY_MISSING_BITS_INDEXES', 'table', dict(result='unsat', backend='table-eval', secs=0))
+        else: rep.notes.append('ROUND_KEY_MISSING_BITS_INDEXES (documentation table, unused by the code) does not list the dropped bit positions in the 0-based convention assumed here')
     except Exception: pass
     units = []
     for iar in [None] + list(range(16)):
